@@ -72,7 +72,7 @@ Qed.
 
 Lemma error_received_fs s : fsame s (fst (error_received s)).
 Proof.
-  unfold error_received. destruct (s_fut s) as [f|]; cbn [fst]; [|apply close_transport_fs].
+  unfold error_received. destruct (s_fut s) as [f|]; cbn [fst]; [|apply fsame_refl].
   destruct (pending s f).
   - apply fsame_trans with (b := complete s f (FExc XOSError)). cfs. apply close_transport_fs.
   - apply close_transport_fs.
